@@ -202,13 +202,19 @@ def verbatim(src, tokens, acc):
         if e > len(lines):
             continue  # C03's business
         c = t.content
+        last_open = e == len(lines) and not src.endswith(("\n", "\r"))
         if c and not c.endswith("\n"):
-            if e == len(lines) and not src.endswith(("\n", "\r")):
-                cl = c.split("\n")  # the last input line has no line ending, so neither has the content
-            else:
+            if not last_open:
                 return f"{t.type} content does not end with a newline"
+            cl = c.split("\n")  # the last input line has no line ending, so neither has the content
         else:
             cl = c.split("\n")[:-1] if c else []
+            if last_open and t.type != "code_block":
+                # ... and when that last line is empty after its container prefix it contributes an empty,
+                # unterminated content line
+                want = (e - b - 1) if t.type == "fence" else (e - b)
+                if len(cl) == want - 1 and lines[e - 1].strip(" \t>") == "":
+                    cl = cl + [""]
         if t.type == "fence":
             first = b + 1
             n = len(cl)
@@ -238,6 +244,7 @@ def verbatim(src, tokens, acc):
 
 # ---- (c) independent backtick scanner -----------------------------------------------------------------
 BT_ATOMS = ["`", "``", "a", " ", "\n", "\xa0", "\x0b", "*", "["]
+BT2_ATOMS = ["`", "``", "a", " ", "]", "(u)"]
 
 
 def scan_backticks(s):
@@ -265,11 +272,21 @@ def scan_backticks(s):
     return out
 
 
+def _code_spans(children):
+    out = []
+    for c in children or []:
+        if c.type == "code_inline":
+            out.append((c.markup, c.content))
+        elif c.children:  # image descriptions
+            out += _code_spans(c.children)
+    return out
+
+
 def bt_case(md, s, acc):
     toks = acc.call(md.parseInline, s)
     if toks is CRASH:
         return None
-    got = [(c.markup, c.content) for c in toks[0].children if c.type == "code_inline"]
+    got = _code_spans(toks[0].children)
     exp = scan_backticks(toks[0].content)
     if got:
         acc.sig(("bt", tuple(got)))
@@ -279,7 +296,7 @@ def bt_case(md, s, acc):
     if s and s == s.strip() and "\n" not in s:
         bt = acc.call(md.parse, s)
         if bt is not CRASH and len(bt) == 3 and bt[1].type == "inline" and bt[1].content == s:
-            got2 = [(c.markup, c.content) for c in bt[1].children if c.type == "code_inline"]
+            got2 = _code_spans(bt[1].children)
             if got2 != exp:
                 return f"code spans in paragraph {got2!r} != scanner {exp!r}"
     return None
@@ -387,6 +404,8 @@ def shards(tier):
             sh.append(("col2", mk, 3, "first-canonical"))
     for f in BT_ATOMS:
         sh.append(("bt", f, 6 if th else 5))
+    for f in ("[", "[a", "![", "[`"):
+        sh.append(("bt2", f, 7 if th else 6))
     sh += I.block_shards(tier, CFGS, contexts=S.CONTEXTS if th else S.CONTEXTS[:4])
     sh.append(("ol",))
     return sh
@@ -445,6 +464,16 @@ def run_shard(sh, acc):
                 if r:
                     acc.violation(kind, re.sub(r"'[^']*'", "_", r)[:50], {"cfg": c, "l1": l1, "o1": origin + 4, "l2": l2, "o2": o2}, r)
         acc.sample(kind, {"l1": ">\t\tx", "l2": " >\t\ty", "mode": mode, "depth": d}, 1)
+    elif kind == "bt2":
+        # link-label lookahead in front of backtick strings (the label is scanned ahead, then tokenized)
+        _, f, L = sh
+        md = C.build(CFGS[0])
+        for s in S.strings_with_first(f, BT2_ATOMS, L):
+            acc.case()
+            r = bt_case(md, s, acc)
+            if r:
+                acc.violation("bt", "code span differs from the backtick scanner", {"cfg": CFGS[0], "s": s}, r)
+        acc.sample("bt", {"s": f + "`a`a`"}, 1)
     elif kind == "bt":
         _, f, L = sh
         md = C.build(CFGS[0])
